@@ -206,6 +206,41 @@ fn bounded_case(o: &mut Out, name: &str, payload: &[u8], true_len: Option<usize>
     }
 }
 
+/// decompress_text() without an explicit limit is documented to stop at DECOMPRESSION_LIMIT (2 MiB)
+fn default_limit_case(o: &mut Out, name: &str, payload: &[u8], true_len: Option<usize>) {
+    const DEFAULT: usize = 2097152;
+    o.mark(&format!("default-limit {} payload-len={}", name, payload.len()));
+    for itxt in [false, true] {
+        let made = if itxt { itxt_from_payload(payload).map(|t| (None, Some(t))) } else { ztxt_from_payload(payload).map(|t| (Some(t), None)) };
+        let (mut z, mut i) = match made { Some(x) => x, None => continue };
+        o.direct_checks += 1;
+        let before = (z.clone(), i.clone());
+        let m = alloc::mark();
+        let r = guarded(|| match (&mut z, &mut i) {
+            (Some(t), _) => t.decompress_text().map_err(|e| res_err(&e)),
+            (_, Some(t)) => t.decompress_text().map_err(|e| res_err(&e)),
+            _ => unreachable!(),
+        });
+        let peak = alloc::peak_above(m);
+        o.count(&format!("default-limit.{}", if itxt { "iTXt" } else { "zTXt" }));
+        let detail = |why: String| vec![("payload", jstr(name)), ("chunk", jstr(if itxt { "iTXt" } else { "zTXt" })), ("limit", jstr("default (decompress_text)")), ("true_length", jstr(&format!("{:?}", true_len))),
+            ("peak_heap_growth", peak.to_string()), ("result", jstr(&format!("{:?}", r))), ("why", jstr(&why))];
+        if peak > 3 * DEFAULT + 70_000 {
+            o.violation(viol("bounded-text-decompression-materialises-more-than-the-limit", detail(format!("peak {} > 3 * 2 MiB + 70000", peak))));
+            continue;
+        }
+        match (&r, true_len) {
+            (Err(m), _) => o.violation(viol("panic-in-text-decompression", detail(m.clone()))),
+            (Ok(Ok(())), Some(n)) if n > DEFAULT => o.violation(viol("text-longer-than-the-limit-was-decompressed", detail(String::new()))),
+            (Ok(Err(e)), Some(n)) if n <= DEFAULT && !itxt => o.violation(viol("text-within-the-limit-was-refused", detail(e.clone()))),
+            (Ok(Err(_)), _) => {
+                if (z.clone(), i.clone()) != before { o.violation(viol("failed-decompression-changed-the-chunk", detail(String::new()))); }
+            }
+            _ => {}
+        }
+    }
+}
+
 pub fn run(a: &Args) {
     let mut o = Out::new(&a.out);
     let mut rng = Rng::new(a.seed);
@@ -285,6 +320,7 @@ pub fn run(a: &Args) {
         for &l in &limits {
             bounded_case(&mut o, name, p, *tl, l);
         }
+        default_limit_case(&mut o, name, p, *tl);
     }
     o.mark("done");
     o.finish();
